@@ -23,7 +23,7 @@ if MODE == 'scoped':
     def _scoped(events: List[int]) -> bool:
         """
         pre: 1 <= len(events) <= MAXLEN
-        pre: all_in(events, 0, 7)
+        pre: all_in(events, 0, 8)
         pre: first_ok(events)
         post: _
         """
